@@ -126,12 +126,12 @@ PROPS["C03"] = {
     "timeout": 3600,
     "trusted_base": [
         KERNEL, HARNESS, GENCHECK,
-        "statements in lean/Ogen/Props/C03.lean; models ValidateM.intValidate (BitVec 64, literal incl. the v *= -1 wrap and Go's divide-by-zero panic), ArrVal.validateLength/uniqueItems, IntBounds.propsOk, Sec.missingAny — hand-written from validate/*.go and the generated required-mask loop; tie = line-by-line comparison with the real validate.Int/Array/String/Object/UniqueItems on boundary grids",
+        "statements in lean/Ogen/Props/C03.lean; models ValidateM.intValidate (BitVec 64, literal incl. the v *= -1 wrap and Go's divide-by-zero panic), ArrVal.validateLength/uniqueItems, IntBounds.propsOk, Sec.missingAny, FloatV.validate (over the exact rational value of a double, decoded from its bit pattern by FloatV.ofBits; Mathlib's ℚ lemmas in FloatValidate_proof) — hand-written from validate/*.go and the generated required-mask loop; tie = line-by-line comparison with the real validate.Int/Float/Array/String/Object/UniqueItems on boundary grids and random bit patterns",
         "the reference validator of the harness (cmd/corr/schema.go: JSON Schema draft 4 + nullable for the keyword fragment, exact rationals) is the oracle for regenerated servers; it is independent of ogen but itself only tested",
-        "NOT proved: schema → validator translation (gen/ir/validation.go), needValidation, Opt/Nil boxing, additionalProperties handling, sum types, formats, float validation (big.Rat on doubles), regex matching",
+        "NOT proved: schema → validator translation (gen/ir/validation.go), needValidation, Opt/Nil boxing, additionalProperties handling, sum types, formats, regex matching",
     ],
-    "assumptions": ["integers are within the width of their format", "instances avoid 1.0-style integers and float-inexact multipleOf (readings on which validators legitimately differ)"],
-    "level_text": "partial: the leaf validators and the required-mask arithmetic are Lean theorems for every value (int_validate_iff on all of int64, length_iff, props_iff, unique_iff, required_mask_iff); 'accept iff valid' for whole schemas is decided on every run by posting schema-directed valid instances, single-keyword boundary mutants and random JSON to regenerated servers and comparing (status, handler-invoked) with an independent reference validator — a correspondence, not a theorem",
+    "assumptions": ["OpenAPI 3.0 reading of `integer`: a number without fraction or exponent part, within the range of its format (int32; int64 and no format: 64 bits)", "multipleOf ≠ 0 (the generator refuses 0)"],
+    "level_text": "partial: the leaf validators and the required-mask arithmetic are Lean theorems for every value (int_validate_iff on all of int64, float_validate_iff on every finite double as an exact rational, length_iff, props_iff, unique_iff, required_mask_iff); 'accept iff valid' for whole schemas is decided on every run by posting schema-directed valid instances, single-keyword boundary mutants and random JSON to regenerated servers and comparing (status, handler-invoked) with an independent reference validator — a correspondence, not a theorem",
     "level_note": "trusted: Lean kernel, statements, leaf models + their differential tie, the harness' reference validator and schema/instance generators, gencheck pipeline.",
     "technique": "Lean 4 proofs of the runtime validators on BitVec 64/Int and of the required bit mask; generated decode-and-validate path checked differentially against an independent reference validator on regenerated servers",
 }
@@ -155,12 +155,12 @@ PROPS["C04"] = {
 PROPS["C15"] = {
     "lean_modules": ["Ogen.Props.C15"],
     "suites": ["c15"],
-    "facts": ["tmpl"],
+    "facts": ["tmpl", "errors"],
     "timeout": 3600,
     "trusted_base": [
         KERNEL, HARNESS, GENCHECK,
         "statements in lean/Ogen/Props/C15.lean; model Stages.handle hand-written from gen/_template/handlers.tmpl and ogenerrors/handler.go; tie = requests that fail at a chosen stage (and every handler outcome) sent to a regenerated server, (status, handler-invoked) compared with the model line by line",
-        "the fact translator harness/cmd/extract (text level): Ogen/Generated/Facts_tmpl.lean — order of the stage markers in handlers.tmpl, the number of `return` statements after each failing stage, the optional-body shortcut of request_decode.tmpl; facts_stage_order and facts_optional_body are stated over it",
+        "the fact translator harness/cmd/extract (text level): Ogen/Generated/Facts_tmpl.lean — order of the stage markers in handlers.tmpl, the number of `return` statements after each failing stage, the optional-body shortcut of request_decode.tmpl; Facts_errors.lean — the status each ogenerrors type reports and the cases of ErrorCode (go/ast); facts_stage_order, facts_optional_body and facts_status_codes are stated over them",
         "further regenerated servers: conjunctive and alternative security requirements, an optional request body with missing / wrong content types, parameter shapes without serialization (must be refused by the generator; a server generated anyway is driven), stage failures with convenient errors active",
         "NOT proved: that the decoders themselves never panic on arbitrary bytes (jx, net/http, generated decoders) — checked on the implementation with byte-level mutations of valid requests, hand-built *http.Request values that bypass URL validation and random bodies; the over-acceptance oracle of that stream is a hand-written reference for one operation",
     ],
